@@ -505,6 +505,39 @@ class C06(Check):
                 obs[i] = obs[i][:-1] + ['! not-accepted', obs[i][-1]]
         return obs, crashes
 
+    def judge(self, cases, impl_obs, spec_obs):
+        """compare with the reference; the reason starts with a canonical 80-column key (operation, self
+        argument, kind of difference) so that one defect gives one report"""
+        from vf import first_diff
+        fails = []
+        for i, (s, o) in enumerate(zip(spec_obs, impl_obs)):
+            k = first_diff(s, o)
+            if k is None:
+                continue
+            exp = s[k] if k < len(s) else '<nothing>'
+            got = o[k] if k < len(o) else '<nothing>'
+            c = [l for l in cases[i] if not l.startswith('@')]
+            opl = c[k] if k < len(c) else ('end' if k == len(c) else '?')
+            t = opl.split()
+            selfarg = len(t) > 2 and t[0] in ('apps', 'pres', 'asg', 'reps', 'join', 'eq', 'cmp', 'starts', 'ends') and t[1] in t[2:]
+            if got.startswith('!'):
+                kind = got.strip()
+            elif exp.split(' | ')[0] != got.split(' | ')[0]:
+                kind = 'result'
+            elif 'M=bad' in got:
+                kind = 'foreign-memory-changed'
+            else:
+                e2 = exp.split(' | ')[1] if ' | ' in exp else ''
+                g2 = got.split(' | ')[1] if ' | ' in got else ''
+                ev, gv = re.findall(r'\[ (\d+) (\S+) \]', e2), re.findall(r'\[ (\d+) (\S+) \]', g2)
+                tv = int(t[1]) if len(t) > 1 and t[1].isdigit() else -1
+                others = [j for j in range(min(len(ev), len(gv))) if ev[j] != gv[j] and j != tv]
+                kind = 'other-variable-changed' if others else 'value'
+            key = ('op=%s%s kind=%s' % (t[0] if t else '?', ' self-argument' if selfarg else '', kind)).replace('0', 'o').replace('1', 'i')
+            key = re.sub(r'\d', '#', key)
+            fails.append((i, k, '%-80s| spec expects `%s`, implementation gives `%s`' % (key[:80], exp, got)))
+        return fails
+
     # ---- generators ---------------------------------------------------------------------------
     def gen_stream(self, rng, count, nops, **kw):
         cases = []
